@@ -850,6 +850,17 @@ class Repo(object):
 
     def _fold_call(self, e, m, cls, env):
         f = lambda x: self._fold(x, m, cls, env)
+        if isinstance(e.func, ast.Attribute) and e.func.attr in ('to_bytes', 'from_bytes') and not any(isinstance(a, ast.Starred) for a in e.args):
+            # <int constant>.to_bytes(n, order[, signed=])  /  int.from_bytes(<bytes constant>, order[, signed=])
+            base = f(e.func.value)
+            a_ = [f(a) for a in e.args]
+            kw_ = {k.arg: f(k.value) for k in e.keywords if k.arg is not None}
+            if len(kw_) == len(e.keywords) and not any(v is UNKNOWN for v in a_ + list(kw_.values())) and set(kw_) <= {'signed', 'byteorder', 'length'}:
+                if e.func.attr == 'to_bytes' and isinstance(base, int) and not isinstance(base, bool) and not isinstance(base, OpInt) \
+                        and a_ and isinstance(a_[0], int) and 0 <= a_[0] <= 4096:
+                    return int(base).to_bytes(*a_, **kw_)
+                if e.func.attr == 'from_bytes' and isinstance(base, ExternalRef) and base.name == 'int' and a_ and isinstance(a_[0], bytes):
+                    return int.from_bytes(*a_, **kw_)
         fn = f(e.func)
         if any(isinstance(a, ast.Starred) for a in e.args):
             return UNKNOWN
